@@ -40,6 +40,62 @@ def variants(rng, d, keys, order, n_perm, pads=True):
     return out
 
 
+def registered_variants(ctx):
+    """Composite programs: functions compiled by alg.register (the second compiler, taperecorder.py) applied to
+    storage variants of their arguments.  TraceOps `call` events: registered = plain function = Sem(program tree)
+    on the denotations, so every variant agrees with the one reference value."""
+    import os
+    import json
+    import programs as PR
+    from drive_session import run_sessions
+    from drive_ops import lookup_event
+    rng, q = ctx.rng, ctx.quick
+    sdir = os.path.join(ctx.work, 'regsessions')
+    os.makedirs(sdir, exist_ok=True)
+    jobs, sessions = [], {}
+    for d, u in ((2, ucfg(sig=[1, 1])), (3, ucfg(sig=[1, 1, -1])), (3, named_ucfg('2DPGA'))) + (() if q else ((3, ucfg(sig=[0, 1, 1])), (4, ucfg(sig=[1, 1, 1, -1])), (4, named_ucfg('3DPGA')))):
+        order = P.canonical_order(d)
+        for nargs in (1, 2):
+            trees = [t for t in PR.depth1_programs(nargs, d) if not PR.ops_in(t) & {'norm', 'normalized', 'sqrt', 'outertan', 'inv', 'div'}]
+            trees += [PR.random_program(rng, nargs, d, 2) for _ in range(6 if q else 30)]
+            trees += [('grade', [('arg', 1)], sorted(rng.sample(range(d + 1), rng.randint(1, d))), 'method') for _ in range(3)]
+            trees += [('gp', [('grade', [('arg', 1)], sorted(rng.sample(range(d + 1), 2)), 'method'), ('arg', nargs)], [], 'infix') for _ in range(3)]
+            if q:
+                trees = rng.sample(trees, min(len(trees), 36 if d == 2 else 24))
+            for i in range(0, len(trees), 8):
+                progs, hist = {}, []
+                for j, t in enumerate(trees[i:i + 8]):
+                    name = f'p{j}'
+                    progs[name] = {'tree': t, 'nargs': nargs, 'symbolic': False, 'pyname': name}
+                    bases = [P.random_key_tuple(rng, d, 4 if d <= 3 else 3, 1) for _ in range(nargs)]
+                    vs = [variants(rng, d, b, order, 3) for b in bases]
+                    for k in range(max(len(v) for v in vs)):
+                        hist.append({'t': 'T1', 'kind': 'prog', 'op': name, 'args': [v[(k * (m + 1)) % len(v)] for m, v in enumerate(vs)], 'params': [], 'mode': 'num'})
+                rng.shuffle(hist)
+                sid = f'r{len(jobs)}'
+                opts = {'wrapper': rng.random() < 0.3}
+                jobs.append({'u': u, 'opts': opts, 'programs': progs, 'history': hist, 'out': os.path.join(sdir, sid), 'sid': sid, 'budget': 60})
+                sessions[sid] = {'u': u, 'opts': opts, 'programs': {k: PR.src(v['tree']) for k, v in progs.items()}}
+    res = run_sessions(jobs)
+    vfiles = [r['values'] for r in res if r['n_values']]
+    skipped = [s_ for r in res for s_ in r['skipped']]
+    if skipped:
+        ctx.extra['skipped_registered_calls'] = len(skipped)
+    n = 0
+    for f, (eid, clause) in ctx.validate('TraceOps.tla', 'TraceOps.cfg', vfiles):
+        header, ev = lookup_event(f, eid)
+        ctx.report(f"registered {ev['name']} = {ev.get('source', '')} in {sessions[header['sid']]['u']} on stored operands "
+                   f"{[a['keys'] for a in ev['args']]}: {clause}" + (f" (raised {ev['raised']})" if ev['raised'] else ''),
+                   {'kind': 'prog', 'clause': clause, 'raised': ev['raised']}, {'session': sessions[header['sid']], 'event': ev, 'spec': 'TraceOps.tla'})
+    for f in vfiles:
+        for line in list(open(f))[1:]:
+            ev = json.loads(line)
+            n += 1
+            if ev['raised'] == '' and ev['res']['keys']:
+                ctx.nontrivial.add(('reg', ev.get('source'), json.dumps([a['keys'] for a in ev['args']]), os.path.basename(f)))
+    ctx.extra['registered_program_calls_on_storage_variants'] = n
+
+
 def run(ctx):
     run_ref_mc(ctx)
     rng, q = ctx.rng, ctx.quick
@@ -70,9 +126,11 @@ def run(ctx):
                         cases.append((op, keys, params))
             groups.append({'u': u, 'opts': {}, 'cases': cases})
     run_plan(ctx, groups, budget=60)
+    registered_variants(ctx)
     ctx.extra['variants_note'] = 'every event of one base case carries the same blade-named indeterminates; agreement of all variants follows from agreement with the single reference value'
     return ctx.finish(
         rule='case = (configuration, operator, storage variant of each operand): permutations of the key tuple (all for <= 3 stored blades) '
              'and zero-padded supersets incl. full canonical and full binary layouts, for 30 operators (binary, unary, composite, '
-             'inverse/division/outertan with rational results, outer series, grade, pow); non-trivial = non-zero result or certified raise',
+             'inverse/division/outertan with rational results, outer series, grade, pow), and for functions compiled by alg.register (depth-1 forms of '
+             'the operator table and sampled depth-2 programs) applied to the same kinds of variants; non-trivial = non-zero result or certified raise',
         assumptions=['generated functions use only ring operations on their inputs', 'TLC, CommunityModules, JSON encoding, harness/generic.py'])
